@@ -36,7 +36,14 @@ fn make_engine(prop: &str, tier: &str) -> Option<Box<dyn Engine>> {
 fn budget(prop: &str, tier: &str) -> (u32, u32, u64) {
     let thorough = tier == "thorough";
     match prop {
-        "C01" | "C02" | "C03" | "C04" | "C05" | "C07" | "C16" => {
+        "C16" => {
+            if thorough {
+                (12000, 14, 7200)
+            } else {
+                (2002, 14, 900)
+            }
+        }
+        "C01" | "C02" | "C03" | "C04" | "C05" | "C07" => {
             if thorough {
                 (8000, 14, 7200)
             } else {
@@ -115,6 +122,7 @@ fn main() {
     let cmd = args.get(1).map(|s| s.as_str()).unwrap_or("");
     let code = match cmd {
         "solve-one" => engine_pipeline::solve_one_main(),
+        "c15-opt" => engine_transition::c15_opt_main(args.get(2).map(|s| s.as_str()).unwrap_or("quick")),
         "worker" => {
             // worker <prop> <tier> <seed> <widx> <cases>
             sut::silence_stdout();
